@@ -1,5 +1,6 @@
 import OutlineModel.Proofs.NatInv
 import OutlineModel.Model.UDPRun
+import OutlineModel.Gen.Decisions
 /-
 C16 — UDP metrics match the datagrams actually relayed (handler side).
 
@@ -221,5 +222,15 @@ theorem removed_exactly_once (st : State) (inv : NatInv st) (client : String) :
       have := (List.mem_filter.1 hx).2
       simpa using this
     simp [this]
+
+
+/-- **status_alphabet_as_modelled**: the statuses the UDP path can construct, as a regenerated table:
+    those of `Model/UDP` (ERR_CIPHER, ERR_READ_ADDRESS, ERR_RESOLVE_ADDRESS, ERR_ADDRESS_INVALID,
+    ERR_PACK; ERR_ADDRESS_PRIVATE and OK come from the policy and the success path) and three that
+    only an operating-system failure produces and the model does not have (ERR_READ,
+    ERR_CREATE_SOCKET, ERR_WRITE).  A status added or renamed in the source changes the table. -/
+theorem status_alphabet_as_modelled :
+    Gen.Decisions.udpStatuses = ["ERR_ADDRESS_INVALID", "ERR_CIPHER", "ERR_CREATE_SOCKET", "ERR_PACK", "ERR_READ", "ERR_READ_ADDRESS",
+      "ERR_RESOLVE_ADDRESS", "ERR_WRITE"] := by decide
 
 end OutlineModel.Props.C16
